@@ -68,7 +68,7 @@ Theorem send_param_limit : forall a b c d e f g (s s' : S0) r,
   exists acts name param, h_actions (hs s') = acts ++ [ASend a b name e param] /\ lenN param <= h_maxparam (hs s).
 Proof.
   intros a b c d e f g s s' r. dst0 s. unfold send, out_send, push_action. mstep; intros [= <- <-]; try discriminate.
-  all: cbv beta iota zeta delta [hs HostV0.h_actions HostV0.h_maxparam with_actions].
+  all: cbv beta iota zeta delta [hs HostV0.h_actions HostV0.h_maxparam with_actions] in *.
   all: eexists _, _, _; split; [reflexivity|]. all: arith_close.
 Qed.
 
